@@ -20,7 +20,7 @@ def sym_rake(d: int):
 
 def cfg_standard(ctx: Any, code: str, n: int, mode: str = 'T', trim: bool = True,
                  rake_d: int = 0, boards: int = 1, ante_kind: str = 'uniform',
-                 automations: Any = None) -> dict:
+                 automations: Any = None, concrete_blinds: bool = False) -> dict:
     """Standard layout with symbolic amounts.  Button games: 1 <= sb <= bb,
     uniform ante a >= 0 (or BB ante / per-player antes); stud: ante >= 0,
     1 <= bring-in < small bet.  Stacks >= 1 (short stacks allowed)."""
@@ -41,14 +41,20 @@ def cfg_standard(ctx: Any, code: str, n: int, mode: str = 'T', trim: bool = True
     elif ante_kind == 'per-player':
         cfg['antes'] = tuple(ctx.int(f'ante{i}', 0, MAXCHIP) for i in range(n))
     if C.is_stud(code):
-        bring = ctx.int('bring', 1, MAXCHIP)
-        small = ctx.int('small', 2, MAXCHIP)
-        ctx.assume(bring < small)
+        if concrete_blinds:
+            bring, small = 1, 2
+        else:
+            bring = ctx.int('bring', 1, MAXCHIP)
+            small = ctx.int('small', 2, MAXCHIP)
+            ctx.assume(bring < small)
         cfg.update(bring_in=bring, small_bet=small, big_bet=small * 2)
     else:
-        sb = ctx.int('sb', 1, MAXCHIP)
-        bb = ctx.int('bb', 1, MAXCHIP)
-        ctx.assume(sb <= bb)
+        if concrete_blinds:
+            sb, bb = 1, 2
+        else:
+            sb = ctx.int('sb', 1, MAXCHIP)
+            bb = ctx.int('bb', 1, MAXCHIP)
+            ctx.assume(sb <= bb)
         cfg['blinds'] = (sb, bb)
         if C.uses_small_big(code):
             cfg.update(small_bet=bb, big_bet=bb * 2)
